@@ -1,9 +1,9 @@
 #!/bin/sh
-# apply every seeded change in turn and run the check of its property (quick tier)
+# apply every seeded change in turn (in a scratch worktree, /repo is not touched) and run the check of its property (quick tier)
 cd /verif
 for d in seeded/*/; do
-  id=$(basename $d)
-  if [ -n "$1" ] && ! echo " $* " | grep -q " $id "; then continue; fi
-  echo "== $id"
-  tools/try_seed.sh /verif/seeded/$id/patch.diff $id quick 2>&1 | cut -c1-300 | head -8
+  sd=$(basename $d); id=${sd%b}
+  if [ -n "$1" ] && ! echo " $* " | grep -q " $sd "; then continue; fi
+  echo "== $sd"
+  tools/try_seed_scratch.sh /verif/seeded/$sd/patch.diff $id quick 2>&1 | cut -c1-300 | head -8
 done
